@@ -81,6 +81,8 @@ ROOT_KINDS = (["Torso"] * 8 + ["Node"] * 4 + ["ContainerGeneration", "ItemWithBa
 
 MODEL_MODULE = "test.dataset.example_classes"   # where the domain classes live (harness/c05.py also uses generated models)
 SCAL_TYPES: Dict[str, Dict[str, str]] = {}      # generated models: class -> field -> scalar type name
+NOINIT: Dict[str, set] = {}                     # generated models: class -> dataclass fields with init=False (no constructor arguments)
+CONTAINER: Dict[Tuple[str, str], str] = {}      # generated models: (class, collection field) -> declared container ("tuple"); default list
 TAGNAME: Dict[Tuple[str, str], str] = {}        # (mapping class, its field) -> name of the object's field it stands for (same tag in the heaps)
 DAOKEY: Dict[Tuple[str, str], str] = {}         # (class, reference field) -> relationship key of its DAO when the mapping renames it
 FROZEN: set = set()                             # generated models: classes declared @dataclass(frozen=True)
@@ -189,11 +191,25 @@ def scalar_key(v) -> Any:
         return ("dt", v.isoformat())
     if isinstance(v, dict):
         return ("list", tuple(sorted(scalar_key(x) for x in v.values())))
-    if isinstance(v, (list, tuple)):
+    if isinstance(v, tuple):
+        return ("tuple", tuple(scalar_key(x) for x in v))
+    if isinstance(v, (set, frozenset)):
+        return ("set", tuple(sorted(scalar_key(x) for x in v)))
+    if isinstance(v, list):
         return ("list", tuple(scalar_key(x) for x in v))
     if isinstance(v, type):
         return ("type", v.__name__)
     return ("inst", type(v).__name__)
+
+
+def ctype(v) -> str:
+    """container class of a collection value, as far as the round trip has to preserve it"""
+    return "tuple" if isinstance(v, tuple) else "set" if isinstance(v, (set, frozenset)) else "list"
+
+
+def ref_tag(cn: str, f: str, kind: str, container: str = "list") -> int:
+    name = TAGNAME.get((cn, f), f.lstrip("_"))
+    return TAGS((name, kind)) if kind == "one" or container == "list" else TAGS((name, kind, container))
 
 
 def get_scalar(o, f):
@@ -223,6 +239,10 @@ def _dec(v):
             return {x: x for x in v["dictvals"]}
         if "type" in v:
             return getattr(ex, v["type"])
+        if "set" in v:
+            return set(v["set"])
+        if "tuple" in v:
+            return tuple(v["tuple"])
     return v
 
 
@@ -238,15 +258,23 @@ def build(descr) -> List[Any]:
             objs.append(fn)
             continue
         cls = class_of(o["c"])
-        kw = {k: _dec(v) for k, v in o["s"].items()}
+        noinit = NOINIT.get(o["c"], set())
+        kw = {k: _dec(v) for k, v in o["s"].items() if k not in noinit}
         for f, kind, _t, _opt in REFS.get(o["c"], []):
-            kw[f] = None if kind == "one" else []
-        objs.append(cls(**kw))
+            if f not in noinit:
+                kw[f] = None if kind == "one" else ([] if CONTAINER.get((o["c"], f), "list") == "list" else ())
+        po = cls(**kw)
+        for k, v in o["s"].items():
+            if k in noinit:
+                object.__setattr__(po, k, _dec(v))     # fields that are no constructor arguments are set after construction
+        objs.append(po)
     for o, po in zip(descr["objs"], objs):
         for f, kind, _t, _opt in REFS.get(o["c"], []):
             ids = o["r"].get(f, [])
             if kind == "one":
                 object.__setattr__(po, f, objs[ids[0]] if ids else None)     # (frozen dataclasses: as their own __init__ does)
+            elif CONTAINER.get((o["c"], f), "list") == "tuple":
+                object.__setattr__(po, f, tuple(objs[i] for i in ids))
             else:
                 object.__setattr__(po, f, [objs[i] for i in ids])
     return objs
@@ -297,7 +325,7 @@ def dump(root, reverse=False) -> Tuple[List[Tuple[int, int, List[int], List[Tupl
         flds = []
         for f, kind, _t, _opt in REFS.get(cn, []):
             v = getattr(o, f, None)
-            tag = TAGS((TAGNAME.get((cn, f), f.lstrip("_")), kind))
+            tag = ref_tag(cn, f, kind, ctype(v) if kind == "many" else "list")
             if kind == "one":
                 kids = [] if v is None else [adr(index[id(v)])]
             else:
@@ -389,6 +417,8 @@ def py_iso(a, b, relax_altbase: bool = False) -> Optional[str]:
                     u, v = list(u), list(v)
                 except TypeError:
                     return f"{path}.{f}: not a collection"
+                if ctype(getattr(x, f)) != ctype(getattr(y, f, None)):
+                    return f"{path}.{f}: container {ctype(getattr(x, f))} vs {ctype(getattr(y, f, None))}"
                 if len(u) != len(v):
                     return f"{path}.{f}: collection length {len(u)} vs {len(v)}"
                 for i, (p, q) in enumerate(zip(u, v)):
@@ -402,7 +432,11 @@ def gen_scalars(rng: core.Rng, cls: str, idx: int) -> Dict[str, Any]:
     if cls in SCAL_TYPES:
         mk = {"int": lambda: rng.randint(-2, 5), "float": num, "str": lambda: f"s{rng.randint(0, 4)}",
               "bool": lambda: rng.chance(0.5), "Optional[float]": lambda: rng.choice([None, 0.5, 2.0]),
-              "Optional[int]": lambda: rng.choice([None, 0, 7]), "List[str]": lambda: [f"t{rng.randint(0, 2)}" for _ in range(rng.randint(0, 2))]}
+              "Optional[int]": lambda: rng.choice([None, 0, 7]), "List[str]": lambda: [f"t{rng.randint(0, 2)}" for _ in range(rng.randint(0, 2))],
+              "Set[int]": lambda: {"set": sorted({rng.randint(0, 5) for _ in range(rng.randint(0, 3))})},
+              "Tuple[int, ...]": lambda: {"tuple": [rng.randint(0, 5) for _ in range(rng.randint(0, 3))]},
+              "Optional[datetime]": lambda: rng.choice([None, {"dt": "2021-03-04T05:06:07"}, {"dt": "2021-03-04T05:06:07+00:00"},
+                                                        {"dt": "2022-01-02T03:04:05+02:00"}])}
         vals = {f: mk[t]() for f, t in SCAL_TYPES[cls].items()}
         ff = FALSY_FIELDS.get(cls)
         if ff and ff[1] in vals and rng.chance(0.5):      # make the instance FALSY at conversion time
@@ -805,6 +839,11 @@ def run(tier: str, seed: int, replay=None) -> int:
         return rep.finish()
 
     findings = core.load_findings(PROP)
+    from . import c05 as _c05r
+    _c05r.OPEN_RULES.clear()
+    _c05r.OPEN_RULES.update(rule for rule, fid in _c05r.RULE_FINDING.items() if any(f.fid == fid and f.kind == "open" for f in findings))
+    if replay is None:
+        rep.extra["scenarios"] = _c05r.run_scenarios(rep, PROP, findings)
     descrs: List[dict] = []
     origin: List[str] = []
     from . import c05 as _c05          # generated class models (with falsy-capable classes) are produced by harness/c05.py's workers
@@ -918,6 +957,7 @@ def run(tier: str, seed: int, replay=None) -> int:
     codes: Dict[int, List[int]] = {i: v for (i, _), v in zip(exprs, vals)}
 
     kf_altcycle = 0
+    kf_rules: Dict[str, int] = {}
     kf_altbase = 0
     c04c_open = any(f.fid == "C04-c" and f.kind == "open" for f in findings)
     stale = 0
@@ -928,6 +968,11 @@ def run(tier: str, seed: int, replay=None) -> int:
             bad.append((m, f"exception {res['exc']}"))
             continue
         code, f04, wf = codes[i]
+        m["code"] = code
+        if code != 0 and _c05r.rule_instances(m):
+            for fid in _c05r.rule_instances(m):
+                kf_rules[fid] = kf_rules.get(fid, 0) + 1
+            continue
         m["in_f"] = bool(model_ok and f04 == 1)      # F04w: coherent class model and no mapping object handed out in progress
         dist["in_F04"] += 1 if m["in_f"] else 0
         dist["old_F04"] = dist.get("old_F04", 0) + (1 if not ft["alt_objs"] and not ft["altbase_objs"] else 0)
@@ -961,7 +1006,7 @@ def run(tier: str, seed: int, replay=None) -> int:
         rep.note(f"{stale} cases outside F04 where impl = spec but the model predicts a failure (model inexact / finding repaired)")
     dist["generated_models"] = gdist
     rep.extra["distribution"] = dist
-    rep.extra["known_finding_instances"] = {"C04-a": kf_altcycle, "C04-c": kf_altbase}
+    rep.extra["known_finding_instances"] = {"C04-a": kf_altcycle, "C04-c": kf_altbase, **kf_rules}
     rep.samples = [{"case": m["descr"], "features": m["ft"]} for m in metas[:: max(1, len(metas) // 5)]][:5]
 
     for m, why in bad[:5]:
@@ -1000,6 +1045,8 @@ def run(tier: str, seed: int, replay=None) -> int:
     # known findings / fixed entries
     for f in (findings if replay is None else []):
         w = json.loads((core.VERIF / f.witness).read_text())
+        if f.cls.startswith("K_scn"):
+            continue          # judged by run_scenarios
         if f.cls == "K_state_reuse":
             _run_state_reuse(rep, [f], only=False)
             continue
@@ -1015,7 +1062,7 @@ def run(tier: str, seed: int, replay=None) -> int:
             elif f.kind == "open":
                 rep.note("known finding C04-c: the scenario no longer yields a wrong object (finding appears repaired, or the allocator did not reuse the address)")
             continue
-        still = any(m["origin"] == f.witness and (m.get("code") == 2 or "exc" in m["res"])
+        still = any(m["origin"] == f.witness and (m.get("code") == 2 or "exc" in m["res"] or f.fid in _c05r.rule_instances(m))
                     for m in metas) if replay is None else None
         if replay is not None:
             continue
